@@ -1,5 +1,6 @@
 import PegVerif.Proofs.Attempts
 import PegVerif.Proofs.BoundaryEval
+import PegVerif.Proofs.Sentinel
 /-
   C10 – a failed parse reports a real failure offset – the furthest one without memo.
 
@@ -52,5 +53,39 @@ theorem C10_boundary (env : Env) (cs : List Char) (hx : GoodExterns env.hooks) (
     {e : PErr} {g : Global} (h : parseAdvanced env n rule (enc cs) u = some (.err e, g)) :
     IsBoundary cs e.pos ∧ e.pos ≤ (enc cs).length :=
   (C04_offsets_on_boundaries env cs hx rule n u h).2 e rfl
+
+/-- **never the sentinel when left-recursive rules list their recursive alternatives first** – with `@leftrec`
+    and `@memoize` rules present.  `RecFirst g settings lvl fuel` is a decidable syntactic check: in every
+    `@leftrec` rule the positions that can make the body fail before input is consumed (last alternative of a
+    choice, sequence parts, …) reach no `@leftrec`/`@memoize` rule of the same or a lower precedence level `lvl`;
+    for `lvl = fun _ => 0` it says "the last alternative is a real base alternative" (`RecFirst.of_shape`); levels
+    admit precedence towers `E = E '+' T | T; T = T '*' F | F`.  No purity hypothesis. -/
+theorem C10_no_sentinel (env : Env) (lvl : String → Nat) (fuel : Nat)
+    (hrf : RecFirst env.g env.settings lvl fuel = true)
+    (n : Nat) (rule : String) (inp : List UInt8) (u : Nat) {e : PErr} {g' : Global}
+    (h : parseAdvanced env n rule inp u = some (.err e, g')) : e.spec ≠ .leftRecursionSentinel :=
+  Peg.C10_no_sentinel env lvl fuel hrf n rule inp u h
+
+/-- the shape named by the property satisfies the check -/
+theorem C10_recursive_first_shape (g : Grammar) (st : Settings) (lvl : String → Nat) (d m : Nat) (w : Bool)
+    (recs bases : List Expr) (hne : bases ≠ [])
+    (hrecs : ∀ a ∈ recs, SN.chk g st lvl d m w false a = true)
+    (hbases : ∀ a ∈ bases, SN.chk g st lvl d m w true a = true) :
+    SN.chk g st lvl (d + 1) m w true (.choice (recs ++ bases)) = true :=
+  RecFirst.of_shape g st lvl d m w recs bases hne hrecs hbases
+
+/-- non-vacuity: the calculator-style tower passes the check (with levels) and a failing input reports a real error -/
+example : RecFirst SentinelExample.envT.g SentinelExample.envT.settings SentinelExample.lvlT 10 = true := by decide
+
+/-- the side condition is needed: base alternative first ⇒ the sentinel is reported (`A = 'b' | A 'x'` on "c") -/
+example : reportedErr SentinelExample.envBaseFirst 30 "A" [99] = some ⟨0, .leftRecursionSentinel⟩ := by decide
+
+/-- **finding K5**: a `@memoize` rule that takes part in the left recursion leaks the sentinel although the
+    `@leftrec` rule lists its recursive alternative first and has a base alternative:
+    `@export S = A 'w' | M; @leftrec A = M 'x' | 'b'; @memoize M = A 'y';` on "z" (model level here; the replay on
+    the real generated parser is a known finding of the C10 check) -/
+theorem C10_memoized_rule_in_cycle_leaks_sentinel :
+    reportedErr SentinelExample.envMemo 30 "S" [122] = some ⟨0, .leftRecursionSentinel⟩ :=
+  SentinelExample.envMemo_reported
 
 end Peg.Props
